@@ -31,6 +31,12 @@ pub fn threads() -> usize { rayon_num_threads() }
 #[cfg(not(feature = "concurrent"))]
 pub fn threads() -> usize { 1 }
 
+/// answers and oracles use `empty` for the empty list (`-` would mean "no oracle" to the check driver)
+pub fn ans(s: &str) -> String { if s == "-" { "empty".to_string() } else { s.to_string() } }
+pub fn case(out: &mut Out, req: &str, oracle: &str, f: impl FnOnce() -> String) {
+    out.case(req, &ans(oracle), || ans(&f()));
+}
+
 pub fn show_list(es: &[E]) -> String {
     if es.is_empty() { "-".to_string() } else { es.iter().map(|e| show(e)).collect::<Vec<_>>().join(";") }
 }
@@ -132,7 +138,7 @@ fn run_field<F: Fld>(rng: &mut Rng, out: &mut Out, n: usize, large: &[usize]) {
     for (vals, class) in inputs {
         let exp: Vec<E> = vals.iter().map(|e| pool.inv0(e)).collect();
         out.count(&format!("{name}:binv:{class}"));
-        out.case(&format!("c14 {name} binv {t} {}", show_list(&vals)), &show_list(&exp), || {
+        case(out, &format!("c14 {name} binv {t} {}", show_list(&vals)), &show_list(&exp), || {
             from_elems(&batch_inversion(&to_elems::<F>(&vals)))
         });
     }
@@ -149,12 +155,12 @@ fn run_field<F: Fld>(rng: &mut Rng, out: &mut Out, n: usize, large: &[usize]) {
             // documented result: the vector [1, b, .., b^(n-1)] of n values (empty for n = 0)
             let exp = o_powers(&s, &b, &o_one(&s), len);
             let b2 = b.clone();
-            out.case(&format!("c14 {name} pow {t} {} {len}", show(&b)), &show_list(&exp), move || {
+            case(out, &format!("c14 {name} pow {t} {} {len}", show(&b)), &show_list(&exp), move || {
                 from_elems(&get_power_series(F::from_canon(&b2), len))
             });
             let exp = o_powers(&s, &b, &sft, len);
             let (b2, s2) = (b.clone(), sft.clone());
-            out.case(&format!("c14 {name} powoff {t} {} {} {len}", show(&b), show(&sft)), &show_list(&exp), move || {
+            case(out, &format!("c14 {name} powoff {t} {} {} {len}", show(&b), show(&sft)), &show_list(&exp), move || {
                 from_elems(&get_power_series_with_offset(F::from_canon(&b2), F::from_canon(&s2), len))
             });
         }
@@ -170,7 +176,7 @@ fn run_field<F: Fld>(rng: &mut Rng, out: &mut Out, n: usize, large: &[usize]) {
         let b: Vec<E> = (0..lb).map(|_| pool.any(rng)).collect();
         let exp = if la == lb { show_list(&a.iter().zip(&b).map(|(x, y)| o_add(&s, x, y)).collect::<Vec<_>>()) } else { "abort".to_string() };
         out.count(&format!("{name}:addip:{}", if la == lb { "same-len" } else { "len-mismatch" }));
-        out.case(&format!("c14 {name} addip {} {}", show_list(&a), show_list(&b)), &exp, || {
+        case(out, &format!("c14 {name} addip {} {}", show_list(&a), show_list(&b)), &exp, || {
             let mut x = to_elems::<F>(&a);
             add_in_place(&mut x, &to_elems::<F>(&b));
             from_elems(&x)
@@ -186,7 +192,7 @@ fn run_field<F: Fld>(rng: &mut Rng, out: &mut Out, n: usize, large: &[usize]) {
         } else { "abort".to_string() };
         let bs = show_list(&bb.iter().map(|&y| vec![y]).collect::<Vec<_>>());
         out.count(&format!("{name}:mulacc:{}", if la == lb { "same-len" } else { "len-mismatch" }));
-        out.case(&format!("c14 {name} mulacc {} {bs} {}", show_list(&a), show(&c)), &exp, || {
+        case(out, &format!("c14 {name} mulacc {} {bs} {}", show_list(&a), show(&c)), &exp, || {
             let mut x = to_elems::<F>(&a);
             let y: Vec<F::BaseField> = bb.iter().map(|&v| base_of::<F>(v)).collect();
             mul_acc::<F::BaseField, F>(&mut x, &y, F::from_canon(&c));
@@ -216,7 +222,7 @@ fn run_arrays<const N: usize>(rng: &mut Rng, out: &mut Out, reps: usize) {
             // group: consecutive chunks
             let exp = if ok { show_arrays(&src.chunks(N).map(|c| c.to_vec()).collect::<Vec<_>>()) } else { "abort".to_string() };
             out.count(&format!("nat:group:N={N}:{class}"));
-            out.case(&format!("c14 nat group {N} {}", show_u32s(&src)), &exp, || {
+            case(out, &format!("c14 nat group {N} {}", show_u32s(&src)), &exp, || {
                 let g: &[[u32; N]] = group_slice_elements(&src);
                 show_arrays(&g.iter().map(|a| a.to_vec()).collect::<Vec<_>>())
             });
@@ -227,7 +233,7 @@ fn run_arrays<const N: usize>(rng: &mut Rng, out: &mut Out, reps: usize) {
                 show_arrays(&(0..rows).map(|i| cols.iter().map(|c| c[i]).collect::<Vec<u32>>()).collect::<Vec<_>>())
             } else { "abort".to_string() };
             out.count(&format!("nat:transpose:N={N}:{class}"));
-            out.case(&format!("c14 nat transpose {N} {}", show_u32s(&src)), &exp, || {
+            case(out, &format!("c14 nat transpose {N} {}", show_u32s(&src)), &exp, || {
                 let g: Vec<[u32; N]> = transpose_slice(&src);
                 show_arrays(&g.iter().map(|a| a.to_vec()).collect::<Vec<_>>())
             });
@@ -236,7 +242,7 @@ fn run_arrays<const N: usize>(rng: &mut Rng, out: &mut Out, reps: usize) {
                 let arrays: Vec<[u32; N]> = src.chunks(N).map(|c| { let mut a = [0u32; N]; a.copy_from_slice(c); a }).collect();
                 let req = format!("c14 nat flat {N} {}", show_arrays(&arrays.iter().map(|a| a.to_vec()).collect::<Vec<_>>()));
                 out.count(&format!("nat:flat:N={N}"));
-                out.case(&req, &show_u32s(&src), || {
+                case(out, &req, &show_u32s(&src), || {
                     let f1 = flatten_slice_elements(&arrays).to_vec();
                     let f2 = flatten_vector_elements(arrays.clone());
                     if f1 == f2 { show_u32s(&f1) } else { format!("slice/vector differ: {} / {}", show_u32s(&f1), show_u32s(&f2)) }
@@ -273,7 +279,7 @@ fn run_plan(out: &mut Out, large: &[usize]) {
     for len in lens {
         for min in [1usize, 7, 1024] {
             out.count(&format!("plan:min={min}"));
-            out.case(&format!("c14 plan {len} {t} {min}"), &expected_plan(len, t, min), || {
+            case(out, &format!("c14 plan {len} {t} {min}"), &expected_plan(len, t, min), || {
                 let mut data = vec![0u32; len];
                 let seen: Mutex<Vec<(usize, usize)>> = Mutex::new(vec![]);
                 if min == 1 {
